@@ -40,6 +40,11 @@ FAILURE KEYS (closed set; every observable failure maps to exactly one of them, 
                                        single-diagnostic culprits; the key lists the lints of a 1-minimal failing SUBSET of
                                        diagnostics found by delta debugging (deterministic order), i.e. the set of lints
                                        whose fixes must be applied together to see S
+  For L = remove-this-duplicate the lint name is refined by WHAT was removed (node kinds from the real parser):
+    remove-this-duplicate/pure-duplicate (variables, literals, operators, parentheses, list / tuple literals) or
+    remove-this-duplicate/effectful-duplicate-<kind> (kind of the removed operand: call, mcall, if, match, …): a fix
+    that removes an expression containing a call, method call, assignment, block or closure is outside the proved
+    schema `repeated_bool_fix_sound_partial` (the failure report carries the verdict of `rbfix_check`).
   C22/no-fixed-point/<L>               repeating --fix cycles (an earlier text comes back) or needs more than 12 rounds; L = a lint
                                        still offering a fix at that point (one failure per such lint)
   C22/fix-covers-other-code/remove-unused-value   the unused-literal deletion touches another statement
@@ -55,12 +60,52 @@ LEAN_MODULES = ["GardenVerif.Props.C22"]
 LEVEL = "translation_validation"
 
 
+EFFECT_PRELUDE = (
+    "struct Sensor {\n  name: String,\n}\n"
+    "method poll(this: Sensor): Bool {\n  println(this.name ^ \" polled\")\n  False\n}\n"
+    "method ready(this: Sensor): Bool {\n  println(this.name ^ \" ready\")\n  True\n}\n"
+    "method quiet(this: Sensor): Bool {\n  this.name == \"\"\n}")
+
+
+def effectful_duplicate(rng, k):
+    """(statements, kind): a `&&` / `||` chain whose REPEATED operand is an expression with an effect (or a call
+    that only the callee's body can tell to be effect-free), one syntactic kind per variant. The first occurrence
+    never short-circuits (garden's operators are strict anyway), so dropping the second changes the output. The
+    lint must not offer 'Remove this duplicate' for any of them; if a widened purity test does, the run before /
+    after shows it."""
+    v = "e%d" % k
+    op, first = rng.choice([("||", "poll"), ("&&", "ready")])
+    variants = [
+        ("user-method", ["let %s = Sensor{ name: \"s%d\" }" % (v, k)], "%s.%s()" % (v, first)),
+        ("user-method-arg", ["let %s = Sensor{ name: \"t%d\" }" % (v, k)], "%s.%s()" % (v, first)),
+        ("pure-user-method", ["let %s = Sensor{ name: \"\" }" % v], "%s.quiet()" % v),
+        ("user-function", [], "pr(%d)" % rng.randrange(0, 6)),
+        ("closure-call", ["let %s = fun(z) {\n    println(\"clo\")\n    z > 2\n  }" % v], "%s(%d)" % (v, rng.randrange(0, 6))),
+        ("dbg", [], "dbg(%s)" % rng.choice(["True", "False"])),
+        ("builtin-method", ["let %s = [%d]" % (v, k)], "%s.is_empty()" % v),
+        ("block-assign", ["let %s = True" % v], "(if %s { %s = False  True } else { False })" % (v, v)),
+        ("match-effect", [], "(match Some(%d) { Some(w) => { println(string_repr(w))  w > 2 } None => { False } })" % k),
+    ]
+    kind, pre, e = rng.choice(variants)
+    shape = rng.randrange(3)
+    if shape == 0:
+        chain = "%s %s %s" % (e, op, e)
+    elif shape == 1:
+        chain = "%s %s %s %s %s" % (e, op, rng.choice(["True", "False"]), op, e)
+    else:
+        chain = "(%s %s %s) %s %s" % (e, op, rng.choice(["True", "False"]), op, e)
+    return pre + ["println(string_repr(%s))" % chain], kind
+
+
 def gen_lint_program(rng, idx):
     """Functions whose bodies mix ordinary statements with lint triggers; every function is called and its
     result printed, and effectful helpers print, so a fix that drops or duplicates code is observable."""
     g = RC.RGen(rng, size=rng.choice([10, 18, 26]), assign=True, closures=rng.random() < 0.5)
     kinds = []
     parts = ["fun pr(k) {\n  println(string_repr(k))\n  k > 2\n}", "fun eff(k) {\n  println(string_repr(k + 100))\n  k\n}"]
+    with_effects = rng.random() < 0.6
+    if with_effects:
+        parts.insert(0, EFFECT_PRELUDE)
     g.funs += []
     nfun = rng.randrange(1, 4)
     calls = []
@@ -72,7 +117,11 @@ def gen_lint_program(rng, idx):
         body = []
         for _ in range(rng.randrange(2, 6)):
             k = rng.randrange(14)
-            if k == 0:
+            if with_effects and rng.random() < 0.25:
+                stmts, ek = effectful_duplicate(rng, len(kinds))
+                kinds.append("effectful-duplicate:" + ek)
+                body += stmts
+            elif k == 0:
                 kinds.append("literal-line")
                 body.append(rng.choice(["1", '"s"', "[1, 2]", "(1, 2)", "[%s]" % g.int_expr(2)]))
             elif k == 1:
@@ -233,6 +282,42 @@ def corpus():
     return out
 
 
+EFFECT_KINDS = {"call", "mcall", "assign", "update", "if", "while", "for", "match", "lambda", "let", "return", "assert",
+                "break", "continue", "unsup", "invalid"}
+
+
+def duplicate_detail(tree, pos):
+    """Refinement of the `remove-this-duplicate` lint name by WHAT was removed: `/pure-duplicate` (variables, literals,
+    operators, parentheses, list / tuple literals only — what the lint is meant for) or
+    `/effectful-duplicate-<kind of the removed operand>`."""
+    node = None
+    for e in tree.exprs:
+        if (int(e[3]), int(e[4])) == pos:
+            node = e
+            break
+    if node is None:
+        return "/unlocated-duplicate"
+
+    def effectful(e):
+        if e[0] in EFFECT_KINDS:
+            return True
+        return any(effectful(x) for x in e[5:] if RC.is_expr(x))
+    return "/effectful-duplicate-" + node[0] if effectful(node) else "/pure-duplicate"
+
+
+def group_details(tree, diags):
+    """{group index: key suffix} for the diagnostics that offer fixes (same order as `groups`)."""
+    out = {}
+    g = 0
+    for d in diags:
+        if not d[3]:
+            continue
+        if d[3][0][0] == "Remove this duplicate" and tree is not None:
+            out[g] = duplicate_detail(tree, d[2])
+        g += 1
+    return out
+
+
 def slug(desc):
     return re.sub(r"[^a-z]+", "-", re.sub(r"`[^`]*`", "", desc).lower()).strip("-")
 
@@ -267,8 +352,9 @@ class Classifier:
     """Attributes a symptom (crash / fixed-does-not-parse / behaviour-changed) of one program to keys of the closed
     set described in the module docstring. `groups` = the diagnostics that offer fixes, each a list of fixes."""
 
-    def __init__(self, ctx, src, groups, before, skip):
+    def __init__(self, ctx, src, groups, before, skip, detail=None):
         self.ctx, self.src, self.groups, self.before, self.skip = ctx, src, groups, before, skip
+        self.detail = detail or {}
         self.cache = {}
 
     def judge(self, a):
@@ -324,7 +410,7 @@ class Classifier:
         return [self.cache[ss] for ss in subsets]
 
     def lint(self, g):
-        return slug(self.groups[g][0][0])
+        return slug(self.groups[g][0][0]) + self.detail.get(g, "")
 
     def classify(self, symptom):
         """-> list of keys (without the C22/ prefix) explaining `symptom` of the full fix list."""
@@ -396,6 +482,8 @@ def run(ctx):
                          ["astx " + hexs(s) for s in srcs])
     chk, fx, astq, runs, astx = r[:n], r[n:2 * n], r[2 * n:3 * n], r[3 * n:4 * n], r[4 * n:]
     schema_jobs = []          # (program, "lit" | "rb", text after applying only those fixes, ids)
+    details = {}              # program -> {group index: key suffix}
+    rb_verdict = {}           # (program, diagnostic position) -> verdict of the Lean relation
     model_lines, model_idx = [], []
     hist, nfix_total, lint_hist = {}, 0, {}
     stage = {}
@@ -419,6 +507,7 @@ def run(ctx):
             ctx.fail("C22/generator", "generated program does not parse", **rep)
             continue
         groups = [d[3] for d in diags if d[3]]
+        details[i] = {}
         fixes = [f for g in groups for f in g]
         ctx.case(s, bool(fixes))
         nfix_total += len(fixes)
@@ -444,6 +533,7 @@ def run(ctx):
         # FixCoversOnly for the unused-literal deletion: it touches no statement but the literal's own
         if astq[i] and astq[i].startswith("OK (astq 0"):
             tree_i = RC.Tree(astq[i])
+            details[i] = group_details(tree_i, diags)
             # the program-level schema relations (Props/C22 whole-program theorems), one schema at a time
             stmt = {}
             for b in blocks(tree_i):
@@ -461,8 +551,8 @@ def run(ctx):
                 t = apply_subset(s, lit_fixes, True)
                 schema_jobs.append((i, "lit", t, lit_ids))
             rbd = [d for d in diags if d[3] and d[3][0][0] == "Remove this duplicate"]
-            for d in rbd[:2]:
-                schema_jobs.append((i, "rb", apply_subset(s, d[3], True), []))
+            for d in rbd[:6]:
+                schema_jobs.append((i, "rb", apply_subset(s, d[3], True), d[2]))
             st = statements(tree_i)
             for d in diags:
                 (ds, de) = d[2]
@@ -506,6 +596,11 @@ def run(ctx):
                              "unused-literal fixes applied")
         else:
             mm = re.match(r"^OK \(rbfix (1|0|shape-only) (\S+) (\d+) (\d+) (\d)\)$", x)
+            rb_verdict[(i, ids)] = {"1": "inside the proved schema (repeatedBoolCheck accepts)",
+                                    "shape-only": "OUTSIDE the proved schema: the chain is not call-free pure "
+                                                  "(repeatedBoolCheck rejects)",
+                                    "0": "OUTSIDE the proved schema: not of the shape `x op d -> x`"}.get(
+                mm.group(1) if mm else "", "not evaluated")
             if mm and mm.group(1) == "1":
                 sch["rb_accepted"] += 1
                 sch["rb_closure_free"] += mm.group(5) == "1"
@@ -594,17 +689,21 @@ def run(ctx):
         pending = nxt
     # ---- attribute every symptom to keys of the closed set (the replays of all programs are batched)
     attributed = {}
-    entries = [dict(i=i, src=srcs[i], groups=stage[i][0], before=before[i], fixed=stage[i][1], sym=sym, round=1)
-               for i, sym in symptomatic]
+    entries = [dict(i=i, src=srcs[i], groups=stage[i][0], before=before[i], fixed=stage[i][1], sym=sym, round=1,
+                    detail=details.get(i, {})) for i, sym in symptomatic]
     if later:
-        lr = ctx.garden_batch(["check " + hexs(t) for _, t, _ in later] + [RC.run_line(t) for _, t, _ in later])
+        lr = ctx.garden_batch(["check " + hexs(t) for _, t, _ in later] + [RC.run_line(t) for _, t, _ in later] +
+                              ["astq " + hexs(t) for _, t, _ in later])
         for k, (i, t, sym) in enumerate(later):
             pc = parse_check(lr[k])
             groups = [d[3] for d in (pc[1] if pc else []) if d[3]]
+            aq = lr[2 * len(later) + k]
+            tr = RC.Tree(aq) if aq and aq.startswith("OK (astq 0") else None
             entries.append(dict(i=i, src=t, groups=groups, before=RC.run_result(lr[len(later) + k]), fixed=None,
+                                detail=group_details(tr, pc[1] if pc else []),
                                 sym=sym, round=2))
     for e in entries:
-        e["cl"] = Classifier(ctx, e["src"], e["groups"], e["before"], skip_variant)
+        e["cl"] = Classifier(ctx, e["src"], e["groups"], e["before"], skip_variant, e["detail"])
         e["plan"] = e["cl"].plan()
 
     def prefetch(wanted):
@@ -624,6 +723,7 @@ def run(ctx):
                 "fixed-does-not-parse": "has parse errors",
                 "behaviour-changed": "prints or ends differently although the original ran without error"}[sym]),
                 fixed=e["fixed"], before_run=e["before"], src=e["src"], original=srcs[e["i"]], fix_round=e["round"],
+                schema_relation={str(pos): v for (pi, pos), v in rb_verdict.items() if pi == e["i"]},
                 cmd="garden check --fix --stdout f.gdn")
     # ---- the CLI on a sample
     def cli_job(i):
